@@ -43,7 +43,31 @@ def _source_files():
     return keep
 
 
+def ensure_driver():
+    """(re)build the fact driver when its binary is missing or older than its sources (fresh restore: driver/target is not committed)"""
+    src = [os.path.join(VERIF, "driver", "Cargo.toml")] + [os.path.join(VERIF, "driver", "src", f) for f in os.listdir(os.path.join(VERIF, "driver", "src"))]
+    newest = max(os.path.getmtime(f) for f in src)
+    if os.path.exists(DRIVER) and os.path.getmtime(DRIVER) >= newest:
+        return
+    os.makedirs(CACHE, exist_ok=True)
+    lock = open(os.path.join(CACHE, "driver-build.lock"), "w")
+    fcntl.flock(lock, fcntl.LOCK_EX)
+    try:
+        if os.path.exists(DRIVER) and os.path.getmtime(DRIVER) >= newest:
+            return
+        env = dict(os.environ, CARGO_NET_OFFLINE="true")
+        env.pop("RUSTC_WORKSPACE_WRAPPER", None)
+        r = subprocess.run(["cargo", "+nightly", "build", "--release", "--offline"], cwd=os.path.join(VERIF, "driver"), env=env, capture_output=True, text=True)
+        if r.returncode != 0 or not os.path.exists(DRIVER):
+            raise CheckError("building the fact driver failed (MANIFEST.setup_cmd):\n" + "\n".join(r.stderr.splitlines()[-30:]))
+        os.utime(DRIVER, None)
+    finally:
+        fcntl.flock(lock, fcntl.LOCK_UN)
+        lock.close()
+
+
 def tree_hash():
+    ensure_driver()
     h = hashlib.sha256()
     for f in _source_files():
         p = os.path.join(REPO, f)
